@@ -81,7 +81,10 @@ func main() {
 		// every statement goes through the same steps as in the other modes
 		for _, n := range t {
 			n = n.STRewrite(node.SymTbl{})
-			node.ByteCode(n, cr)
+			if err := node.Compile(n, cr, true); err != nil {
+				fmt.Println(err)
+				continue
+			}
 			if v, err := virtM.Run(true); err == nil {
 				fmt.Println(v)
 			}
